@@ -46,6 +46,12 @@ def run(tier):
 
         # 1. spec -> code: every emitted case through interpolate_dataset_along_axis -------------------
         for ci, c in enumerate(cases):
+            perm = None
+            if ci % 2:
+                # targets in no particular order (a track, merged band lists): the order of the targets carries no meaning
+                perm = list(range(len(c["x"])))
+                rng.shuffle(perm)
+                c = dict(c, x=[c["x"][i] for i in perm], exp=[c["exp"][i] for i in perm])
             rank = rng.choice([1, 1, 2, 3, 4])
             pos = rng.randrange(rank)
             kind = rng.choice(["float", "scaled", "int", "time", "time_s", "time_ms"])
@@ -70,6 +76,8 @@ def run(tier):
                 chk.violation("passive", "a variable without the coordinate did not pass through unchanged", ctx)
             vals = ov.values
             clean = idx.get((tuple(c["xp"]), c["mode"], tuple(0 for _ in c["nan"])))
+            if clean is not None and perm is not None:
+                clean = dict(clean, exp=[clean["exp"][i] for i in perm])
             bad = None
             for o, (s, cc) in fac.items():
                 for k in range(len(tx)):
